@@ -13,6 +13,7 @@ def run(ctx):
     D.ord10_cursor_before_snapshot(ctx)
     L.lck1_flush_critical_section(ctx, with_reset=False)
     L.lck2_ingest_critical_section(ctx)
+    D.lit3_wal_file_names(ctx)
     return ctx.finish(
         'Static analysis of compiler MIR: structural clauses of the write-ahead protocol that are '
         'necessary for "acknowledged data survives restart" are decided on every CFG path '
